@@ -75,7 +75,7 @@ def handle (j : Json) : List (String × Json) :=
         let ps := strOf p; let cs := strOf c
         let cnt := match n.getNat? with | .ok k => k | _ => 0
         let sv := if YR.countOK ps cs cnt then "ok" else "err:1:0 leak=0"
-        [("m", v), ("s", sv), ("dc", Json.bool (YR.isSlack ps cs || ps = "deviate" || ps = "refine" ||
+        [("m", v), ("s", sv), ("dc", Json.bool ((YR.isSlack ps cs && !(ps = "list" && cs = "key")) || ps = "deviate" || ps = "refine" ||
             -- "at least one data definition" in a list is an ABNF rule (1*data-def), not a table cell
             (ps = "list" && cs = "leaf" && cnt = 0)))]
       | _ => [("m", v), ("s", v)]
